@@ -46,6 +46,9 @@ def DataFrame_from_json (truth : Term → Bool) : Out :=
 /-- the decorators of dataiter/data_frame.py: DataFrame.from_json, outermost first -/
 def DataFrame_from_json_decorators : List String := ["classmethod"]
 
+/-- the signature of dataiter/data_frame.py: DataFrame.from_json: parameters in order, with the source text of their defaults -/
+def DataFrame_from_json_signature : List String := ["cls", "string", "*", "columns=[]", "dtypes={}", "**kwargs"]
+
 /-- dataiter/data_frame.py: DataFrame.read_json (sha256 of the function source: d7455ebe58e7fbc6) -/
 def DataFrame_read_json (truth : Term → Bool) : Out :=
   let eff0 : Term := (Term.app "with" [(Term.app "util.xopen" [(Term.sym "path"), (Term.sym "'rt'"), (Term.app "=encoding" [(Term.sym "encoding")])])]);
@@ -53,6 +56,9 @@ def DataFrame_read_json (truth : Term → Bool) : Out :=
 
 /-- the decorators of dataiter/data_frame.py: DataFrame.read_json, outermost first -/
 def DataFrame_read_json_decorators : List String := ["classmethod"]
+
+/-- the signature of dataiter/data_frame.py: DataFrame.read_json: parameters in order, with the source text of their defaults -/
+def DataFrame_read_json_signature : List String := ["cls", "path", "*", "encoding='utf-8'", "columns=[]", "dtypes={}", "**kwargs"]
 
 /-- dataiter/data_frame.py: DataFrame.read_csv (sha256 of the function source: dc35aaded235743c) -/
 def DataFrame_read_csv (truth : Term → Bool) : Out :=
@@ -72,6 +78,9 @@ def DataFrame_read_csv (truth : Term → Bool) : Out :=
 /-- the decorators of dataiter/data_frame.py: DataFrame.read_csv, outermost first -/
 def DataFrame_read_csv_decorators : List String := ["classmethod"]
 
+/-- the signature of dataiter/data_frame.py: DataFrame.read_csv: parameters in order, with the source text of their defaults -/
+def DataFrame_read_csv_signature : List String := ["cls", "path", "*", "encoding='utf-8'", "sep=','", "header=True", "columns=[]", "dtypes={}"]
+
 /-- dataiter/data_frame.py: DataFrame.read_parquet (sha256 of the function source: 3e95913a0704035f) -/
 def DataFrame_read_parquet (truth : Term → Bool) : Out :=
   let columns' : Term := (Term.app "Or" [(Term.sym "columns"), (Term.sym "None")]);
@@ -80,6 +89,9 @@ def DataFrame_read_parquet (truth : Term → Bool) : Out :=
 
 /-- the decorators of dataiter/data_frame.py: DataFrame.read_parquet, outermost first -/
 def DataFrame_read_parquet_decorators : List String := ["classmethod"]
+
+/-- the signature of dataiter/data_frame.py: DataFrame.read_parquet: parameters in order, with the source text of their defaults -/
+def DataFrame_read_parquet_signature : List String := ["cls", "path", "*", "columns=[]", "dtypes={}"]
 
 /-- dataiter/list_of_dicts.py: ListOfDicts.from_json (sha256 of the function source: 747140db1f0360e6) -/
 def ListOfDicts_from_json (truth : Term → Bool) : Out :=
@@ -99,6 +111,9 @@ def ListOfDicts_from_json (truth : Term → Bool) : Out :=
 /-- the decorators of dataiter/list_of_dicts.py: ListOfDicts.from_json, outermost first -/
 def ListOfDicts_from_json_decorators : List String := ["classmethod"]
 
+/-- the signature of dataiter/list_of_dicts.py: ListOfDicts.from_json: parameters in order, with the source text of their defaults -/
+def ListOfDicts_from_json_signature : List String := ["cls", "string", "*", "keys=[]", "types={}", "**kwargs"]
+
 /-- dataiter/list_of_dicts.py: ListOfDicts.read_json (sha256 of the function source: a3234885ed7eafdc) -/
 def ListOfDicts_read_json (truth : Term → Bool) : Out :=
   let eff0 : Term := (Term.app "with" [(Term.app "util.xopen" [(Term.sym "path"), (Term.sym "'rt'"), (Term.app "=encoding" [(Term.sym "encoding")])])]);
@@ -106,6 +121,9 @@ def ListOfDicts_read_json (truth : Term → Bool) : Out :=
 
 /-- the decorators of dataiter/list_of_dicts.py: ListOfDicts.read_json, outermost first -/
 def ListOfDicts_read_json_decorators : List String := ["classmethod"]
+
+/-- the signature of dataiter/list_of_dicts.py: ListOfDicts.read_json: parameters in order, with the source text of their defaults -/
+def ListOfDicts_read_json_signature : List String := ["cls", "path", "*", "encoding='utf-8'", "keys=[]", "types={}", "**kwargs"]
 
 /-- dataiter/list_of_dicts.py: ListOfDicts.read_csv (sha256 of the function source: a01be0e8f9a60cb9) -/
 def ListOfDicts_read_csv (truth : Term → Bool) : Out :=
@@ -129,5 +147,8 @@ def ListOfDicts_read_csv (truth : Term → Bool) : Out :=
 
 /-- the decorators of dataiter/list_of_dicts.py: ListOfDicts.read_csv, outermost first -/
 def ListOfDicts_read_csv_decorators : List String := ["classmethod"]
+
+/-- the signature of dataiter/list_of_dicts.py: ListOfDicts.read_csv: parameters in order, with the source text of their defaults -/
+def ListOfDicts_read_csv_signature : List String := ["cls", "path", "*", "encoding='utf-8'", "sep=','", "header=True", "keys=[]", "types={}"]
 
 end DI.Gen
